@@ -82,8 +82,11 @@ def gen_cases(tier, seed):
     for b in range(9 if tier == "quick" else 60):
         name = ["wurtzite", "rocksalt", "zincblende"][b % 3]
         k = int(rng.integers(2, 6))
-        cases.append({"kind": "phonon", "crystal": {"name": name, "order": "asis", "order_seed": 0}, "mesh": [k, k, int(rng.integers(2, 5))] if name == "wurtzite" else [k, k, k],
-                      "shift": [None, None, [0.5, 0.5, 0.5], [0, 0, 0.5]][int(rng.integers(4))], "gamma": bool(rng.integers(2)), "tr": bool(rng.integers(4) != 0), "iter": False, "_cost": 4,
+        plain = bool(b % 3 != 2)  # two thirds: odd Gamma-centred unshifted meshes (few or no grid points on the zone boundary, see the tie rule in run_case)
+        if plain:
+            k = [3, 5][int(rng.integers(2))]
+        cases.append({"kind": "phonon", "crystal": {"name": name, "order": "asis", "order_seed": 0}, "mesh": [k, k, [3, 5][int(rng.integers(2))] if plain else int(rng.integers(2, 5))] if name == "wurtzite" else [k, k, k],
+                      "shift": None if plain else [None, None, [0.5, 0.5, 0.5], [0, 0, 0.5]][int(rng.integers(4))], "gamma": True if plain else bool(rng.integers(2)), "tr": bool(rng.integers(4) != 0), "iter": False, "_cost": 4,
                       "nac": "wang", "nseed": int(rng.integers(10 ** 6))})
     return cases
 
@@ -273,6 +276,19 @@ def run_case(c):
             out["moment2"] = float(ph.get_moment())
         res[sym] = out
     a, b = res[True], res[False]
+    if c.get("nac") == "wang":
+        # the Wang term is not periodic in q: for a grid point ON the Brillouin-zone boundary the tied first-zone images give different
+        # frequencies, so "the frequencies at that q" are not defined and neither sum is the reference; such meshes are not compared
+        from vlib.gen import nac as nacgen_
+
+        ties = 0
+        for q_ in np.array(ph.mesh.qpoints):
+            ties += int(nacgen_.bz_reduce(q_, ph.primitive.cell)[1] > 1)
+        if ties:
+            obs["wang_meshes_with_zone_boundary_points_skipped"] = 1
+            return {"viol": viol, "nontrivial": False, "key": "ph|%s|%s|%s|wang-ties" % (c["crystal"]["name"], mesh, shift), "obs": obs, "evals": 0,
+                    "sample": {"kind": "phonon", "crystal": c["crystal"], "mesh": mesh, "skipped": "zone-boundary grid points with Wang NAC"}}
+        obs["wang_meshes_compared"] = 1
     feat = dict(mesh=mesh, shift=shift, gamma=gamma, tr=tr, iter=c["iter"], nac=c.get("nac"),
                 arbitrary_shift=bool(shift is not None and (np.abs(np.array(shift) * 2 - np.rint(np.array(shift) * 2)) > 0.01).any()))
     for k in a:
